@@ -10,7 +10,7 @@ From CGV Require Import Base.PyBase Base.PyVal Gen.FragGen Dialect.DialectImpl F
      Frag.StripFacts Frag.FragProofs Frag.FragTextX Frag.FragProofsX Frag.FragStages Frag.FragSmall Frag.RingProofs
      Gen.SmilesGen Frag.SmilesParse Frag.SmilesSpec Frag.SmilesProofs Frag.SmilesIndex Frag.SmilesRelabel Frag.SmilesPerm
      Frag.Template Frag.TemplateProofs Frag.TemplateFinal Frag.TemplateGraph Frag.TemplateCompose Frag.SmilesReverse Frag.SmilesPermR
-     Frag.FragTextW Frag.FragProofsW Frag.SmilesReroot Frag.SmilesRewrite Frag.SmilesPermX Frag.TemplateChiral Frag.TemplateChiralProofs.
+     Frag.FragTextW Frag.FragProofsW Frag.SmilesReroot Frag.SmilesRewrite Frag.SmilesPermX Frag.SmilesPermG Frag.TemplateChiral Frag.TemplateChiralProofs.
 From CGV Require Import Base.NxGraph Compose.CutModel Compose.CutSpecDefs.
 Local Open Scope nat_scope.
 Import ListNotations.
@@ -442,6 +442,44 @@ Example C01_branch_order_crossing_nonvacuous :
   (exists G H, graph_of false (xs_x ++ xs_pa ++ xs_pb ++ xs_y) = Ok G /\ graph_of false (xs_x ++ xs_pb ++ xs_pa ++ xs_y) = Ok H /\
      length (g_nodes G) = 9 /\ length (g_edges G) = 10 /\ In (8, 2, VInt 1) (g_edges G) /\ In (8, 5, VInt 1) (g_edges H) /\ G <> H).
 Proof. exact xswap_example. Qed.
+(** ANY ring bonds through two exchanged branches whose ring NUMBERS are disjoint ([disj], decidable: [disjb]):
+    each branch may close ring bonds opened before it, open ring bonds closed after both, or keep them inside; no
+    [rings_local], [fresh] or [avoids].  (Frag/SmilesPermG.v: the ring table belongs to the local run and is compared
+    by look-up, [PSimE]; a run depends on the table only at the numbers it uses, [frame_run].)  Partial: a ring bond
+    FROM one of the two branches TO the other (the same number in both) is not covered *)
+Theorem C01_branch_order_anyrings_partial : forall x pa pb y g c,
+  grun false ginit x = Ok g -> q_cur g = Some c -> q_pend g = None ->
+  is_rblock pa = true -> is_rblock pb = true -> disj pa pb ->
+  let s := swap_sigma (q_n g) (count_atoms pa) (count_atoms pb) in
+  match graph_of false (x ++ pa ++ pb ++ y), graph_of false (x ++ pb ++ pa ++ y) with
+  | Ok G, Ok H => exists n, graph_perm s n G H /\ sigma_ok s n
+  | Err e, Err e' => e = e'
+  | _, _ => False
+  end.
+Proof. exact gswap_branches. Qed.
+Theorem C01_branch_order_anyrings_text_partial : forall x pa pb y g c,
+  wf_smiles (x ++ pa ++ pb ++ y) = true -> wf_smiles (x ++ pb ++ pa ++ y) = true ->
+  grun false ginit x = Ok g -> q_cur g = Some c -> q_pend g = None ->
+  is_rblock pa = true -> is_rblock pb = true -> disj pa pb ->
+  let s := swap_sigma (q_n g) (count_atoms pa) (count_atoms pb) in
+  match smiles_parse (render_smiles false (x ++ pa ++ pb ++ y)), smiles_parse (render_smiles false (x ++ pb ++ pa ++ y)) with
+  | Ok G, Ok H => exists n, graph_perm s n G H /\ sigma_ok s n
+  | Err e, Err e' => e = e'
+  | _, _ => False
+  end.
+Proof. exact gswap_branches_text. Qed.
+Theorem C01_disjb_sound : forall pa pb, disjb pa pb = true -> disj pa pb.
+Proof. exact disjb_sound. Qed.
+Example C01_branch_order_anyrings_nonvacuous :
+  to_string (render_smiles false (gs_x ++ gs_pa ++ gs_pb ++ gs_y)) = "C1CCC(CC1)(C2CC)N2"%string /\
+  to_string (render_smiles false (gs_x ++ gs_pb ++ gs_pa ++ gs_y)) = "C1CCC(C2CC)(CC1)N2"%string /\
+  wf_smiles (gs_x ++ gs_pa ++ gs_pb ++ gs_y) = true /\ wf_smiles (gs_x ++ gs_pb ++ gs_pa ++ gs_y) = true /\
+  is_rblock gs_pa = true /\ is_rblock gs_pb = true /\ rings_local gs_pa = false /\ rings_local gs_pb = false /\
+  disjb gs_pa gs_pb = true /\
+  (exists g, grun false ginit gs_x = Ok g /\ q_cur g = Some 3 /\ q_pend g = None /\ length (q_open g) = 1) /\
+  (exists G H, graph_of false (gs_x ++ gs_pa ++ gs_pb ++ gs_y) = Ok G /\ graph_of false (gs_x ++ gs_pb ++ gs_pa ++ gs_y) = Ok H /\
+     length (g_nodes G) = 10 /\ length (g_edges G) = 11 /\ In (5, 0, VInt 1) (g_edges G) /\ In (8, 0, VInt 1) (g_edges H) /\ G <> H).
+Proof. exact gswap_example. Qed.
 (** the general tool behind it: a state simulation under any index permutation that is the identity
     above the node counter holds along every continuation of the token list *)
 Theorem C01_permutation_simulation : forall s toks g h, sigma_ok s (q_n g) -> PSim s g h ->
@@ -561,12 +599,12 @@ Example C01_start_atom_reroot_nonvacuous :
 Proof. exact reroot_example. Qed.
 (** any start atom: sequences [rws] of elementary rewritings [rw1] of the token list, each at any place
     where its side conditions hold: the re-rooting step; the exchange of two adjacent branches on one atom
-    (without ring-bond markers, with ring bonds closed inside, or one of them leaving ring bonds open); the tail of the text written as a last
+    (without ring-bond markers, with ring bonds closed inside, one of them leaving ring bonds open, or any ring bonds with disjoint numbers); the tail of the text written as a last
     branch `x0 T` -> `x0 (T)` and back (T never closes more than it opens).  A neighbour inside a branch is
     reached by: tail as branch, exchanges that bring the branch to the end, branch as tail, re-rooting (the
     Example).  Every sequence relates the two graphs by the composed permutation.  Partial: that every
     writing of a ring-free fragment is reachable from every other one is NOT proved (no formal notion of
-    "all writings of a tree" here); ring bonds across exchanged branches are not covered *)
+    "all writings of a tree" here); a ring bond between the two exchanged branches is not covered *)
 Theorem C01_start_atom_rewrite_partial : forall w w' s, rws w w' s ->
   graphs_rel s (graph_of false w) (graph_of false w').
 Proof. exact rws_sound. Qed.
@@ -628,3 +666,5 @@ Print Assumptions C13_template_is_template_rs_partial.
 Print Assumptions C13_template_rs_node.
 Print Assumptions C13_chiral_tuple_spec.
 Print Assumptions C13_partial_wildcard.
+Print Assumptions C01_branch_order_anyrings_partial.
+Print Assumptions C01_branch_order_anyrings_text_partial.
